@@ -151,6 +151,29 @@ impl Prop for VolumeGain {
                 }
             }
         }
+        // and through "some steps, then everything else": the remainder carries the gain too
+        if c.volume_db != 0.0 && !y1.is_empty() {
+            let mut g3 = match catch(|| loud.generator(lines)) {
+                Ok(Ok(g)) => g,
+                _ => fail!("generator", "generator failed on the third pass"),
+            };
+            let fp = g3.fperiod();
+            let frames = y1.len() / fp;
+            let k = 1 + (c.base.labels.len() * 7) % frames.clamp(1, 60);
+            let mut buf = vec![0.0; fp];
+            let mut done = 0;
+            for _ in 0..k.min(frames) {
+                if g3.generate_step(&mut buf) == 0 {
+                    break;
+                }
+                done += 1;
+            }
+            let rest = g3.generate_all();
+            ensure!(rest.len() == y1.len() - done * fp, "volume-step", "after {} steps generate_all returned {} samples of {}", done, rest.len(), y1.len());
+            for (j, (a, b)) in rest.iter().zip(&y1[done * fp..]).enumerate() {
+                ensure!(a.to_bits() == b.to_bits() || (a.is_nan() && b.is_nan()), "volume-step", "after {} steps, sample {} of the remainder: {:e} vs one-shot {:e} at {} dB", done, j, a, b, c.volume_db);
+            }
+        }
         rep.nontrivial = c.volume_db != 0.0 && !y0.is_empty();
         rep.class(c.base.voice.class());
         rep.class_if(c.before_reload, "volume-set-before-reloading-the-voice-defaults");
